@@ -263,7 +263,8 @@ class PhySettings(Settings):
 class GeomSettings(Settings):
     def __init__(self, bankbits, rowbits, colbits):
         self.set_attributes(locals())
-        self.addressbits = max(rowbits, colbits)
+        # Column addresses skip A10 (auto-precharge): with more than 10 column bits they need one more address bit.
+        self.addressbits = max(rowbits, colbits + (1 if colbits > 10 else 0))
 
 
 class TimingSettings(Settings):
